@@ -29,7 +29,7 @@ fn thue_morse(len: usize) -> Vec<u8> {
     (0..len).map(|i| if (i as u64).count_ones() % 2 == 0 { b'a' } else { b'b' }).collect()
 }
 
-const FAMILIES: [&str; 27] = [
+const FAMILIES: [&str; 29] = [
     "am1b_in_a",            // a^(m-1)b in a^n: every position a long partial match
     "am1b_in_am1c",         // a^(m-1)b in (a^(m-1)c)^r
     "am1b_in_am2_bm1",      // a^(m-1)b in (a^(m-2) b^(m-1))^r: every a is a candidate that fails late
@@ -48,6 +48,8 @@ const FAMILIES: [&str; 27] = [
     "b_then_a_run",         // b a^k in a^n b a^(k-1) ... with b planted so that the prefilter stays busy
     "a_run_then_b",         // mirror image
     "prefix_then_periodic", // (ab)^k bb behind a candidate-free prefix and a long (ab)* run: every other offset is a candidate agreeing with almost the whole needle
+    "prefix_then_ab_run_z", // (ab)^k z behind a barren 4/5 and an (ab)* run
+    "prefix_then_abc_run_z",
     "matches_then_barren",  // a^m matches densely in the first half, second half barren
     "barren_then_matches",  // mirror image
     "barren_then_ab",       // needle "ab": x^(n/2) (ab)^(n/4)
@@ -188,6 +190,22 @@ fn instance(family: &str, n: usize, m: usize) -> (Vec<u8>, Vec<u8>) {
             let mut h = vec![b'z'; n / 2];
             h.extend(rep(b"ab", n / 2 - 2));
             h.extend_from_slice(b"bb");
+            (nd, h)
+        }
+        // needle u^k z (critical position at the very end, long
+        // self-overlapping prefix; the rare pair lies in the periodic part when
+        // z is beyond offset 254) behind a candidate-free prefix of 4/5 of the
+        // haystack - long enough to keep the adaptive prefilter switched on -
+        // and a run of u: every |u|-th offset is a fresh prefilter candidate
+        // that agrees with the needle up to the end of the run
+        "prefix_then_ab_run_z" | "prefix_then_abc_run_z" => {
+            let u: &[u8] = if family.contains("abc") { b"abc" } else { b"ab" };
+            let mut nd = rep(u, (m - 1) / u.len() * u.len());
+            nd.push(b'z');
+            let mut h = vec![b'c' + 10; n * 4 / 5];
+            let run = n - h.len() - nd.len().min(n / 10);
+            h.extend(rep(u, run / u.len() * u.len()));
+            h.extend_from_slice(&nd[..nd.len().min(n / 10)]);
             (nd, h)
         }
         "matches_then_barren" => {
